@@ -537,6 +537,11 @@ func InToOut(s In) Out { return Out{A: s.A} }
 func unexportedFn(s In) Out { return Out{A: s.A} }
 func IntToInt(i int) int { return i }
 
+func SharedCtxFn(a int, ctxA *CtxA) int { return a }
+
+type In2 struct{ A int }
+type Out2 struct{ A int }
+
 var NotFunc = 1
 `
 
@@ -556,6 +561,13 @@ var c14Fixed = []fixedSigCase{
 	{"struct-method-source-needs-context-missing", "// goverter:converter\ntype C%d interface{ M(source WithMethod) OutCalcCtx }", false},
 	{"struct-method-source-needs-context-present", "// goverter:converter\ntype C%d interface {\n\t// goverter:context c\n\tM(source WithMethod, c *CtxA) OutCalcCtx\n}", true},
 	{"struct-method-source-no-result", "// goverter:converter\ntype C%d interface{ M(source WithMethod) OutNoResult }", false},
+	// one custom function used by several converters of one run under different settings: every use
+	// is classified under the settings of the converter / method that names it (the permissive use
+	// comes first, so anything remembered per function would show in the strict one)
+	{"extend-unexported-other-package-output-after-same-package-use", "// goverter:converter\n// goverter:extend unexportedFn\ntype C%d interface{ M(source []In) []Out }", false},
+	{"mapfunc-shared-function-context-by-regex", "// goverter:converter\n// goverter:arg:context:regex ^ctx\ntype C%d interface {\n\t// goverter:map A A | SharedCtxFn\n\tM(source In, ctxA *CtxA) Out\n}", true},
+	{"mapfunc-shared-function-two-methods-one-regex", "// goverter:converter\ntype C%d interface {\n\t// goverter:arg:context:regex ^ctx\n\t// goverter:map A A | SharedCtxFn\n\tA(source In, ctxA *CtxA) Out\n\t// goverter:context ctxA\n\t// goverter:map A A | SharedCtxFn\n\tB(source In2, ctxA *CtxA) Out2\n}", false},
+	{"mapfunc-shared-function-without-regex", "// goverter:converter\ntype C%d interface {\n\t// goverter:context ctxA\n\t// goverter:map A A | SharedCtxFn\n\tM(source In, ctxA *CtxA) Out\n}", false},
 }
 
 func c14EvalFixed(t *testing.T, s *vh.Session) {
